@@ -92,6 +92,10 @@ class ProgBaseError(BaseException):
     """Custom BaseException (not Exception)."""
 
 
+class ProgRecursionError(RecursionError):
+    """A sub-class of an exception type the library might treat specially."""
+
+
 class ErrA(Exception):
     pass
 
@@ -105,6 +109,7 @@ EXC_POOL = {
     "SystemExit": SystemExit, "GeneratorExit": GeneratorExit, "ProgBaseError": ProgBaseError,
     "StopIteration": StopIteration, "RecursionError": RecursionError, "CancelledError": None,
     "TypeError": TypeError, "AttributeError": AttributeError, "ValueError": ValueError,
+    "ProgRecursionError": ProgRecursionError,
 }
 
 
